@@ -29,7 +29,7 @@ ASSUMPTIONS = ['clang-14 -O1 lowering is correct', 'x86 intrinsic models', 'MXCS
                'lane symmetry: the kernels treat all lanes alike (C13), so two distinct lane values exercise every whole-batch test any()/all() can distinguish for pairs',
                '__ieee754_rem_pio2 terminates (kept out of line by XSIMD_VERIF_HOOKS and stubbed)']
 EXTRA_FLAGS = ['-DXSIMD_VERIF_HOOKS']
-JOB_BUDGET = {'quick': 420, 'thorough': 7200}
+JOB_BUDGET = {'quick': 300, 'thorough': 7200}
 from .c01 import LEMMAS
 MIN_COVERED = {'quick': 400, 'thorough': 800}
 TIMEOUT = {'quick': 60, 'thorough': 1200}
@@ -55,6 +55,11 @@ def kernels(tier, seed):
                 ks.append(Kernel('C14', f, ty, arch, [('v', ty), ('v', ty)], ('v', ty), 'xsimd::%s(a, b)' % f, meta={'lanemap': lm, 'math': True}))
             ks.append(Kernel('C14', 'sincos', ty, arch, [('v', ty)], ('v', ty), 'xsimd::sincos(a).first + xsimd::sincos(a).second', meta={'lanemap': lm, 'math': True}))
     return ks
+
+
+def job_priority(k):
+    if not k.meta.get('math'): return 0
+    return 9 if k.op in ('tgamma', 'lgamma') else (5 if k.op in ('sin', 'cos', 'tan', 'sincos', 'pow') else 2)
 
 
 def exec_opts(k):
